@@ -22,17 +22,22 @@ pub struct Shape17 {
 
 impl Shape17 {
     pub fn encode(&self) -> Vec<u8> {
-        vec![self.curve.index() as u8, self.n1 as u8, self.n2 as u8, self.closure, self.parties]
+        vec![self.curve.index() as u8, (self.n1 >> 8) as u8, self.n1 as u8, (self.n2 >> 8) as u8, self.n2 as u8, self.closure, self.parties]
     }
     pub fn decode(b: &[u8]) -> Option<Self> {
-        if b.len() != 5 {
+        if b.len() == 5 {
+            return Some(Shape17 { curve: *Curve::ALL.get(b[0] as usize)?, n1: b[1] as usize, n2: b[2] as usize, closure: b[3], parties: b[4] });
+        }
+        if b.len() != 7 {
             return None;
         }
-        Some(Shape17 { curve: *Curve::ALL.get(b[0] as usize)?, n1: b[1] as usize, n2: b[2] as usize, closure: b[3], parties: b[4] })
+        Some(Shape17 { curve: *Curve::ALL.get(b[0] as usize)?, n1: (b[1] as usize) << 8 | b[2] as usize, n2: (b[3] as usize) << 8 | b[4] as usize, closure: b[5], parties: b[6] })
     }
 }
 
 pub const CAPS: [usize; 19] = [0, 1, 2, 3, 4, 5, 6, 7, 8, 9, 10, 11, 12, 13, 14, 15, 16, 17, 32];
+/// capacities around thresholds beyond 2^12
+pub const CAPS_HUGE: [usize; 8] = [0, 2048, 4095, 4096, 4097, 8191, 8192, 8193];
 /// capacities around the larger thresholds (thorough tier)
 pub const CAPS_BIG: [usize; 18] = [0, 16, 31, 32, 33, 47, 63, 64, 65, 96, 127, 128, 129, 200, 255, 256, 257, 300];
 
@@ -69,7 +74,8 @@ pub fn program(s: &Shape17) -> Program {
 
 fn shape_case<G: CurveTag>(s: &Shape17, col: &mut Collector) -> Result<(), Failure> {
     let prog = program(s);
-    let caps: &[usize] = if s.n1 + s.n2 > 20 { &CAPS_BIG } else { &CAPS };
+    let huge = s.n1 + s.n2 > 1000;
+    let caps: &[usize] = if huge { &CAPS_HUGE } else if s.n1 + s.n2 > 20 { &CAPS_BIG } else { &CAPS };
     let n = s.n1 + s.n2;
     let need = n.next_power_of_two().max(1);
     let what = |extra: serde_json::Value| json!({"shape": format!("{:?}", s), "need": need, "detail": extra});
@@ -119,7 +125,7 @@ fn shape_case<G: CurveTag>(s: &Shape17, col: &mut Collector) -> Result<(), Failu
     let valid = fixture::<G>(1, 0);
     for &cap_v in caps {
         let near = cap_v + 1 >= need && cap_v <= need + 1;
-        for mode in 0..5u8 {
+        for mode in 0..if huge { 2 } else { 5u8 } {
             col.evals_add(1);
             let (res, panic): (Option<Result<(), R1CSError>>, Option<String>) = match mode {
                 0 => {
@@ -190,6 +196,9 @@ fn shape_case<G: CurveTag>(s: &Shape17, col: &mut Collector) -> Result<(), Failu
         let mut e = m0.clone();
         e.t_x += <G::ScalarField as ark_ff::One>::one();
         bad.push(("t_x off by one", e));
+        if huge {
+            bad.truncate(2);
+        }
         for (name, mm) in bad {
             let Ok(bp) = mm.to_real() else { continue };
             for &cap_v in caps {
@@ -270,6 +279,10 @@ pub fn run(tier: &str, seed: u64) -> i32 {
         }
     }
     if tier == "thorough" {
+        // thresholds beyond 2^12, one curve each
+        for (i, (n1, n2)) in [(4096usize, 0usize), (4000, 97), (2049, 0)].into_iter().enumerate() {
+            shapes.push(Shape17 { curve: Curve::ALL[(i + seed as usize) % 3], n1, n2, closure: if n2 > 0 { 1 } else { 0 }, parties: 1 });
+        }
         for curve in Curve::ALL {
             for (n1, n2) in [(31, 0), (32, 0), (33, 0), (20, 12), (30, 3), (63, 0), (60, 4), (64, 0), (33, 32), (65, 0), (100, 28), (127, 0), (128, 0), (129, 0)] {
                 shapes.push(Shape17 { curve, n1, n2, closure: if n2 > 0 { 1 } else { 0 }, parties: 1 + ((n1 + n2) % 3) as u8 });
